@@ -33,8 +33,7 @@ def record (key value : List Nat) : List Nat :=
 /-! ### reader side: `header_pax_extension` of archive_read_support_format_tar.c
 
 The body of an 'x' / 'g' header is a sequence of records.  For each the C reads the decimal length
-up to the blank (at most 99999999), the key up to the first '=' — both inside the first 512 bytes of
-what is left and inside the record — hands `length - consumed - 1` value bytes to `pax_attribute`
+up to the blank (at most 99999999), the key up to the first '=' inside the record, hands `length - consumed - 1` value bytes to `pax_attribute`
 and requires a newline after them.  `none`: one of the "Ignoring malformed pax attributes" exits. -/
 
 /-- The size field: digits up to the first blank. Returns (value, what follows the blank). -/
@@ -52,19 +51,19 @@ def findEq : List Nat → Nat → Option Nat
   | [], _ => none
   | c :: r, lim + 1 => if c = 61 then some 0 else (findEq r lim).map (· + 1)
 
-/-- One record off the front of `bs`: (key, value, rest).  `avail`: how many bytes the source has
-buffered; the reader asks for 512 (`max_size_name`) and looks at whatever it gets, so a key whose '='
-lies beyond the first 512 bytes of the record is found or not depending on the source's buffering. -/
-def parseRecord (bs : List Nat) (avail : Nat := 0) : Option (List Nat × List Nat × List Nat) :=
-  let w := bs.take (max 512 avail)
+/-- One record off the front of `bs` (the rest of the extension body): (key, value, rest).  The size
+field is looked for in the first 512 bytes (`max_size_name`; it has at most 8 digits anyway); the '='
+that ends the key anywhere inside the record (the reader asks for more look-ahead as needed, bounded
+by the record length and the extension size — since the repair of the block-size dependence). -/
+def parseRecord (bs : List Nat) : Option (List Nat × List Nat × List Nat) :=
+  let w := bs.take 512
   match parseLen w 0 with
   | none => none
   | some (len, afterW) =>
     let used := w.length - afterW.length          -- digits and the blank
     if len > bs.length then none else
-    let lim := min w.length len
-    if used ≥ lim then none else                  -- "empty name found"
-    match findEq (bs.drop used) (lim - used) with
+    if used ≥ len then none else                  -- "empty name found"
+    match findEq (bs.drop used) (len - used) with
     | none => none                                -- "overlarge attribute name"
     | some 0 => none                              -- "empty name found"
     | some k =>
@@ -76,13 +75,13 @@ def parseRecord (bs : List Nat) (avail : Nat := 0) : Option (List Nat × List Na
       some (key, value, bs.drop len)
 
 /-- All records of an extended header body. -/
-def parseRecords (fuel : Nat) (bs : List Nat) (avail : Nat := 0) : Option (List (List Nat × List Nat)) :=
+def parseRecords (fuel : Nat) (bs : List Nat) : Option (List (List Nat × List Nat)) :=
   match fuel with
   | 0 => if bs = [] then some [] else none
   | fuel + 1 =>
     if bs = [] then some [] else
-    match parseRecord bs avail with
+    match parseRecord bs with
     | none => none
-    | some (k, v, rest) => (parseRecords fuel rest avail).map ((k, v) :: ·)
+    | some (k, v, rest) => (parseRecords fuel rest).map ((k, v) :: ·)
 
 end LA.Pax
